@@ -52,7 +52,8 @@ def cases(draw, tier):
         'regs': draw(gen_prog.registers()),
         'im': draw(st.integers(0, 2)),
         'iff': draw(st.integers(0, 1)),
-        'tstates': draw(gen_prog.frame_times(frame)) + frame * draw(st.sampled_from([0, 0, 1, 7])),
+        # (the last multiplier puts the clock just below / beyond 2^32 T-states: about 20 minutes of Spectrum time)
+        'tstates': draw(gen_prog.frame_times(frame)) + frame * draw(st.sampled_from([0, 0, 1, 7, 2 ** 32 // frame, 2 ** 32 // frame + 1])),
         'interrupts': draw(st.booleans()),
         'o7ffd': draw(st.one_of(st.sampled_from([0, 0x10, 0x07, 0x11, 0x27, 0x30]), st.integers(0, 255))) if model == '128' else 0,
         'tracer': True if model == '128' else draw(st.sampled_from([True, True, False])),
